@@ -581,6 +581,8 @@ class Type2Tag(Tag):
                     self.transceive(sector_select_2, timeout=0.001, retries=0)
                 except Type2TagCommandError as error:
                     if int(error) != TIMEOUT_ERROR:  # passive ack
+                        # the tag may or may not have switched the sector
+                        self._current_sector = None
                         raise
                 else:
                     log.debug("sector {0} does not exist".format(sector))
